@@ -388,26 +388,42 @@ Ltac le_split H :=
   let r := fresh "r" in
   destruct (line_end_cases _ H) as [->|[r ->]].
 
-Lemma delay_rt : forall qs names dur rest,
-  wf_expr dur = true -> delay_ok names dur = true -> line_end rest ->
-  p_delay (map print_qubit qs ++ map TString names ++ print_e dur ++ rest) = Ok (IDelay qs names dur) rest.
+Lemma p_expr_paren_rt : forall e rest, wf_expr e = true -> stop rest ->
+  p_expr (TLParen :: print_e e ++ TRParen :: rest) = Ok e rest.
 Proof.
-  intros qs names dur rest Hwf Hok Hle. unfold p_delay.
+  intros e rest Hwf [Hok Hno]. unfold p_expr. destruct (expr_rt e Hwf) as (HB & _ & _).
+  rewrite parse_e_S. cbn [strip_minus].
+  change (TLParen :: print_e e ++ TRParen :: rest) with (TLParen :: print_e e ++ [TRParen] ++ rest).
+  rewrite (prim_paren e HB) by lia.
+  cbn [length]. apply loop_stop. exact Hno.
+Qed.
+
+Lemma delay_rt : forall qs names dur rest,
+  wf_expr dur = true -> line_end rest ->
+  p_delay (map print_qubit qs ++ map TString names ++ print_duration names dur ++ rest)
+  = Ok (IDelay qs names dur) rest.
+Proof.
+  intros qs names dur rest Hwf Hle. unfold p_delay.
   pose proof (line_end_stop rest Hle) as Hstop.
   pose proof (print_e_head dur) as Hhead.
   destruct names as [|s names].
   - (* no frame names *)
-    cbn [map app]. unfold delay_ok in Hok. cbn [nonempty orb] in Hok.
+    cbn [map app].
     assert (Hcase :
       (exists n, dur = ENum false (VInt n)) \/
-      qstop (print_e dur ++ rest)).
-    { destruct dur as [| | |im v| | |]; try (right; cbn; exact I);
-        try (cbn in Hok; discriminate).
-      - right. cbn [print_e] in *. destruct dur1; cbn in Hok |- *; try discriminate; try exact I;
-          try (destruct im; [|destruct v]; cbn in Hok |- *; try discriminate; exact I).
-      - destruct im; [right; exact I|]. destruct v; [left; eauto | right; exact I | right; exact I]. }
-    destruct Hcase as [[n ->]|Hq].
-    + cbn [print_e tok_of_real app wf_expr wf_num] in *.
+      (qstop (print_duration [] dur ++ rest) /\
+       p_expr (print_duration [] dur ++ rest) = Ok dur rest /\
+       p_strings (print_duration [] dur ++ rest) = ([], print_duration [] dur ++ rest))).
+    { destruct dur as [| | |im v| | |];
+        try (right; cbn [print_duration app]; rewrite <- app_assoc; cbn [app]; split; [exact I|split];
+             [apply p_expr_paren_rt; assumption | reflexivity]).
+      destruct im.
+      - right; cbn [print_duration app]; rewrite <- app_assoc; cbn [app]; split; [exact I|split];
+          [apply p_expr_paren_rt; assumption | reflexivity].
+      - destruct v as [n|id|n]; [left; eauto| |];
+          (right; split; [exact I|split]; [apply p_expr_rt; assumption | reflexivity]). }
+    destruct Hcase as [[n ->]|(Hq & He & Hs)].
+    + cbn [print_duration print_e tok_of_real app wf_expr wf_num] in *.
       apply andb_true_iff in Hwf as [Hn _].
       change (TInt n :: rest) with (map print_qubit [QFixed n] ++ rest).
       rewrite app_assoc, <- map_app.
@@ -415,11 +431,9 @@ Proof.
       replace (p_strings rest) with (@nil N, rest) by (le_split Hle; reflexivity).
       rewrite (p_expr_line_end rest Hle). rewrite rev_app_distr. cbn [rev app].
       rewrite rev_involutive. rewrite (val_of_int_wf n Hn). reflexivity.
-    + rewrite p_qubits_rt by exact Hq.
-      replace (p_strings (print_e dur ++ rest)) with (@nil N, print_e dur ++ rest).
-      * rewrite (p_expr_rt dur rest Hwf Hstop). reflexivity.
-      * destruct (print_e dur) as [|[] ?]; cbn [app]; try contradiction; try reflexivity.
+    + rewrite p_qubits_rt by exact Hq. rewrite Hs, He. reflexivity.
   - rewrite p_qubits_rt by exact I.
+    change (print_duration (s :: names) dur) with (print_e dur).
     rewrite p_strings_rt.
     + rewrite (p_expr_rt dur rest Hwf Hstop). reflexivity.
     + destruct (print_e dur) as [|[] ?]; cbn [app]; try contradiction; try exact I.
@@ -468,7 +482,6 @@ Proof.
         destruct o. reflexivity.
     + le_split Hle; reflexivity.
   - (* IDelay *)
-    apply andb_true_iff in Hwf as [Hd Hok].
     cbn [print_instr app p_instruction p_command]. rewrite <- !app_assoc.
     apply delay_rt; assumption.
   - (* IFence *)
